@@ -162,8 +162,11 @@ Proof.
 Qed.
 
 Definition desc_checks (fs : Z) (d : rdesc) : Prop :=
-  rdesc_ok d /\ d_type d < kas_num_types /\ w64 (d_ks d + d_kl d) <= fs
-  /\ w64 (d_as d + d_al d * type_size (d_type d)) <= fs.
+  rdesc_ok d /\ d_type d < kas_num_types /\ (d_kl d <= fs /\ d_ks d <= fs - d_kl d)
+  /\ (d_as d <= fs /\ d_al d <= (fs - d_as d) / type_size (d_type d)).
+
+Lemma bound_false a b c d : a <= b -> c <= d -> (b <? a) || (d <? c) = false.
+Proof. intros. apply orb_false_iff. split; apply Z.ltb_ge; lia. Qed.
 
 Lemma descs_bytes_cons d r : descs_bytes (d :: r) = desc_bytes d (zeros 7) (zeros 24) ++ descs_bytes r.
 Proof. reflexivity. Qed.
@@ -177,14 +180,13 @@ Qed.
 Lemma parse_descs_bytes fs ds rest :
   Forall (desc_checks fs) ds -> parse_descs fs (length ds) (descs_bytes ds ++ rest) = Ok ds.
 Proof.
-  induction 1 as [|d r (Hok & Ht & Hk & Ha) Hr IH]; [reflexivity|].
+  induction 1 as [|d r (Hok & Ht & (Hk1 & Hk2) & (Ha1 & Ha2)) Hr IH]; [reflexivity|].
   cbn [length parse_descs]. rewrite descs_bytes_cons, <- app_assoc.
   rewrite firstn_app_exact by (apply desc_length; reflexivity).
   rewrite skipn_app_exact by (apply desc_length; reflexivity).
   rewrite <- (app_nil_r (desc_bytes d (zeros 7) (zeros 24))), parse_desc_bytes by (auto; reflexivity).
   replace (kas_num_types <=? d_type d) with false by (symmetry; apply Z.leb_gt; lia).
-  replace (fs <? w64 (d_ks d + d_kl d)) with false by (symmetry; apply Z.ltb_ge; lia).
-  replace (fs <? w64 (d_as d + d_al d * type_size (d_type d))) with false by (symmetry; apply Z.ltb_ge; lia).
+  rewrite (bound_false _ _ _ _ Hk1 Hk2), (bound_false _ _ _ _ Ha1 Ha2).
   rewrite IH. reflexivity.
 Qed.
 
@@ -231,8 +233,10 @@ Proof.
     + constructor; [|exact IH1].
       unfold desc_checks, rdesc_ok; cbn [d_ks d_kl d_as d_al d_type].
       assert (Hil : ilen it <= isize it) by (unfold isize; pose proof (type_size_pos _ Ht); nia).
-      fold (isize it).
-      rewrite !w64_small by lia. rewrite nt10 in *. repeat split; try lia.
+      pose proof (type_size_pos _ Ht) as Hts.
+      assert (Hdiv : ilen it <= (fs - align8 aoff) / type_size (itype it)).
+      { apply Z.div_le_lower_bound; [lia|]. unfold isize in *. lia. }
+      rewrite nt10 in *. repeat split; try lia.
     + rewrite Z.eqb_refl, w64_small by lia. rewrite IH2. f_equal. lia.
     + rewrite (w64_small (align8 aoff)) by lia. rewrite Z.eqb_refl.
       fold (isize it). rewrite w64_small by lia. exact IH3.
